@@ -8,10 +8,6 @@ import (
 	"github.com/sqlc-dev/doubleclick/ast"
 )
 
-// inSubqueryContext is a package-level flag to track when we're inside a Subquery
-// This affects how negated literals with aliases are formatted
-var inSubqueryContext bool
-
 // inCreateQueryContext is a package-level flag to track when we're inside a CreateQuery
 // This affects whether FORMAT is output at SelectWithUnionQuery level (it shouldn't be, as CreateQuery outputs it)
 var inCreateQueryContext bool
